@@ -249,9 +249,11 @@ func (d Diff) RenderPatch() (string, error) {
 				Value: e,
 			})
 		}
-		slices.Reverse(element.Add)
-		for _, e := range element.Add {
-			if isVoid(element.Add[0]) {
+		// Reverse a copy: the Add slice belongs to the caller's diff.
+		adds := slices.Clone(element.Add)
+		slices.Reverse(adds)
+		for _, e := range adds {
+			if isVoid(adds[0]) {
 				continue
 			}
 			patch = append(patch, patchElement{
